@@ -273,6 +273,14 @@ class Interp:
         """content if the write covers off, 'skip' if it is disjoint, None if undecided"""
         start, end = w.start, w.end
         sub = None
+        if w.kind == "loop":
+            from .regions import regions_of
+            probs = []
+            regs = regions_of(st.pc, [w], probs)
+            if len(regs) == 1 and not probs:
+                if solver.entails(st.pc, f_or(flit(lt(off, regs[0].lo)), flit(ge(off, regs[0].hi)))):
+                    return "skip"
+            return None
         if w.q:
             katom, N = w.q
             # find the instance: off - start(k) constant within the width
@@ -286,11 +294,28 @@ class Interp:
                         cands.append(Lin.atom(a))
                 if d0.is_const() or True:
                     cands.append(lin(d0.c // c) if d0.is_const() else None)
+            width = (end - start)
             for cand in cands:
                 if cand is None:
                     continue
                 s2 = start.subst({katom: cand})
                 e2 = end.subst({katom: cand})
+                r = off - s2
+                if r.is_const() and width.is_const() and stride.is_const() and 0 < width.c <= stride.c:
+                    # off = start(cand + q) + r' with 0 <= r' < stride: inside instance cand+q, or in the gap
+                    q, r2 = divmod(r.c, stride.c)
+                    if r2 >= width.c:
+                        return "skip"
+                    inst = cand + q
+                    s2 = start.subst({katom: inst})
+                    e2 = end.subst({katom: inst})
+                    if solver.entails(st.pc, f_and(flit(le(0, inst)), flit(lt(inst, N)))):
+                        sub = {katom: inst}
+                        start, end = s2, e2
+                        break
+                    if solver.entails(st.pc, f_or(flit(lt(inst, 0)), flit(ge(inst, N)))):
+                        return "skip"
+                    continue
                 if solver.entails(st.pc, f_and(flit(le(s2, off)), flit(lt(off, e2)), flit(le(0, cand)), flit(lt(cand, N)))):
                     sub = {katom: cand}
                     start, end = s2, e2
@@ -319,6 +344,9 @@ class Interp:
             if rel.is_const() and 0 <= rel.c < len(w.payload):
                 v = w.payload[rel.c]
                 return IntV(subst_deep(v.l, sub), "u8") if sub else v
+            for i, v in enumerate(w.payload):
+                if solver.entails_lit(st.pc, eq(rel, i)):
+                    return IntV(subst_deep(v.l, sub), "u8") if sub and isinstance(v, IntV) else v
             return self.fresh_int("membyte", "u8")
         if w.kind == "copy":
             src = w.payload
@@ -333,6 +361,10 @@ class Interp:
                 from .lin import _subst_seq
                 sbase = _subst_seq(sbase, sub)
             return self.read_byte(st, sbase, sstart + rel)
+        if w.kind == "member":
+            # the image of a member behind a trait object: byte `rel` of that member's own output
+            d = w.payload
+            return IntV(Lin.atom(("byte", ("member", repr(getattr(d, "name", d))), rel.key())), "u8")
         return self.fresh_int("membyte", "u8")
 
     def write(self, st, base, w):
@@ -373,6 +405,20 @@ class Interp:
                 else:
                     out.append((s, ("val", v)))
             return out
+        if k == "Index" and e["lhs"]["k"] in ("Var", "Field", "Upvar", "Deref"):
+            # an element of a local array: keep the location so that assignments update the variable
+            res = []
+            okp = True
+            for s, p in self.place(e["lhs"], st):
+                if p[0] == "loc" and isinstance(self.read_loc(s, p[1], p[2]), ArrV):
+                    for s2, kind2, i in self.ev(e["index"], s):
+                        if kind2 == "val":
+                            res.append((s2, ("arrloc", p[1], p[2], i, e)))
+                else:
+                    okp = False
+                    break
+            if okp and res:
+                return res
         if k == "Index":
             out = []
             for s, kind, v in self.ev(e["lhs"], st):
@@ -446,6 +492,8 @@ class Interp:
         """list of (state, value)"""
         if p[0] == "loc":
             return [(st, self.read_loc(st, p[1], p[2]))]
+        if p[0] == "arrloc":
+            return self.index_read(st, self.read_loc(st, p[1], p[2]), p[3], p[4])
         if p[0] == "val":
             return [(st, p[1])]
         return self.index_read(st, p[1], p[2], p[3])
@@ -478,6 +526,19 @@ class Interp:
         if p[0] == "loc":
             self.write_loc(st, p[1], p[2], val)
             return [st]
+        if p[0] == "arrloc":
+            arr = self.read_loc(st, p[1], p[2])
+            i = p[3]
+            out = []
+            for s in self.oblige(st, flit(lt(i.l, len(arr.items))), "bounds", p[4]):
+                if i.l.is_const() and 0 <= i.l.c < len(arr.items):
+                    items = list(arr.items)
+                    items[i.l.c] = val
+                    self.write_loc(s, p[1], p[2], ArrV(items))
+                else:
+                    self.write_loc(s, p[1], p[2], ArrV([Opaque("array element after a symbolic store")] * len(arr.items)))
+                out.append(s)
+            return out
         if p[0] == "mem":
             v, i = p[1], p[2]
             if isinstance(v, SliceV) and isinstance(i, IntV):
